@@ -1,6 +1,7 @@
 package props
 
 import (
+	"errors"
 	"fmt"
 	"io"
 
@@ -238,14 +239,25 @@ func regionOf(off, h, l int) string {
 }
 
 func c07Compare(c *sim.Ctx, frame []byte, want Outcome, got Outcome, r *link.Reader, e ending, how string) *sim.Violation {
+	what := ""
 	if want.Same(got) {
-		return nil
+		// "the same rejection": every byte of the frame arrives under every schedule,
+		// so why a frame is refused can only depend on its content - the error must
+		// read the same (and belong to the same io.EOF / io.ErrUnexpectedEOF class)
+		if want.Kind != "error" || want.Err == nil || got.Err == nil {
+			return nil
+		}
+		if want.Err.Error() == got.Err.Error() && errors.Is(want.Err, io.EOF) == errors.Is(got.Err, io.EOF) &&
+			errors.Is(want.Err, io.ErrUnexpectedEOF) == errors.Is(got.Err, io.ErrUnexpectedEOF) {
+			return nil
+		}
+		what = "/another-rejection"
 	}
 	if got.Kind == "panic" && want.Kind == "panic" {
 		return nil
 	}
 	typ := typeName(frame[0] >> 4)
-	sig := fmt.Sprintf("C07/%s/%s/%s", typ, region(frame, r.Log), e)
+	sig := fmt.Sprintf("C07/%s/%s/%s%s", typ, region(frame, r.Log), e, what)
 	lg := r.Log
 	if len(lg) > 64 {
 		lg = lg[:64]
